@@ -5,3 +5,20 @@ pub mod common;
 
 #[cfg(kani)]
 mod c26;
+#[cfg(kani)]
+mod c26a;
+#[cfg(kani)]
+mod c25;
+
+/// expands to a proof harness with the tracing stubs (reaching the real callsite registry ICEs kani-compiler 0.68)
+#[macro_export]
+macro_rules! ul_proof {
+    ($(#[$m:meta])* fn $name:ident() $body:block) => {
+        #[kani::proof]
+        #[kani::stub(tracing_core::callsite::DefaultCallsite::interest, crate::common::trstub::tracing_interest_stub)]
+        #[kani::stub(tracing::__macro_support::__is_enabled, crate::common::trstub::tracing_enabled_stub)]
+        #[kani::stub(tracing_core::event::Event::dispatch, crate::common::trstub::tracing_dispatch_stub)]
+        $(#[$m])*
+        fn $name() $body
+    };
+}
